@@ -32,6 +32,10 @@ func main() {
 			}
 			return a[i]
 		}
+		if strings.HasPrefix(a[i], "-i=") {
+			inputs = append(inputs, a[i][3:])
+			continue
+		}
 		switch a[i] {
 		case "-i":
 			inputs = append(inputs, next())
